@@ -34,7 +34,7 @@ theorem maybeSplit_cases (o fresh : Nat) (heven : o % 2 = 0) {d : Nat} (n : Node
 
 /-- both halves of a split satisfy the occupancy demands of a non-root node and have room -/
 theorem SplitOut.occ {o fresh d : Nat} {n l r : Node K V d} (h : SplitOut o fresh n l r) {m m' : Nat}
-    (hocc : NodeOcc o m (shallow n)) (ho4 : 4 ≤ o) (hev : o % 2 = 0) (hm : m' ≤ o / 2) :
+    (hocc : NodeOcc o m (shallow n)) (ho4 : 2 ≤ o) (hev : o % 2 = 0) (hm : m' ≤ o / 2) :
     NodeOcc o m' (shallow l) ∧ NodeOcc o m' (shallow r) ∧
       (shallow l).keys.length = o / 2 ∧ (shallow r).keys.length = o / 2 := by
   have hd := shallow_height n
@@ -146,7 +146,7 @@ theorem inner_surgery {H : List Lk} {hole : Option Nat} {t t' : Tree K V} (hok :
     (hoccp : NodeOcc t.order (minOf t.order t.rootId hole pid shp'.height) shp')
     (hmid : MidOk H hole t t'.nextId t.rootId M M') (hnid : t.nextId ≤ t'.nextId) : Step H hole t t' := by
   obtain ⟨⟨F, hperm, hF, hFb⟩, hocc, hchain, hframe⟩ := hmid
-  refine ⟨⟨?_, ?_, ?_, ?_, ?_⟩, ?_, hnid, Or.inr ⟨hroot, hdepth⟩, horder⟩
+  refine ⟨⟨?_, ?_, ?_, ?_, ?_, ?_⟩, ?_, hnid, Or.inr ⟨hroot, hdepth⟩, horder⟩
   · refine ids_surgery (F := F) hok.ids hf hf' ?_ hF hFb hnid
     simp only [List.map_cons, List.map_append]
     refine List.Perm.trans ?_ List.perm_middle.symm
@@ -166,7 +166,8 @@ theorem inner_surgery {H : List Lk} {hole : Option Nat} {t t' : Tree K V} (hok :
     rw [chainView_cons_inner _ _ _ hh, chainView_cons_inner _ _ _ (by rw [hh']; exact hh),
       chainView_append, chainView_append, chainView_append, chainView_append]
     exact hchain.context _ _
-  · rw [horder]; exact hok.order4
+  · rw [horder]; exact hok.order2
+  · rw [horder]; exact hok.big
   · rw [horder]; exact hok.even
   · rw [hf, hf']
     apply FrameEq.context
@@ -192,7 +193,7 @@ theorem rootSplit_step {H : List Lk} {hole : Option Nat} {t : Tree K V} (hok : T
   have hrlt : t.rootId < t.nextId := hok.ids.2 _ (List.mem_map.2 ⟨_, hrootmem, rfl⟩)
   have hoccR := hok.occ _ hrootmem
   have hflat : t.flat = (t.rootId, shallow t.root) :: ftail t.root := flat_eq_cons t.root
-  have hhalf := h.occ (m' := t.order / 2) hoccR hok.order4 hok.even (Nat.le_refl _)
+  have hhalf := h.occ (m' := t.order / 2) hoccR hok.order2 hok.even (Nat.le_refl _)
   have hflat' : t'.flat =
       (t.nextId + 1, ⟨t.depth + 1, [ls, rs], [], none, [t.rootId, t.nextId]⟩) :: (flat l ++ flat r) := by
     subst ht'
@@ -222,7 +223,7 @@ theorem rootSplit_step {H : List Lk} {hole : Option Nat} {t : Tree K V} (hok : T
       rw [minOf_congr_ne _ _ t.rootId _ _ _ (by omega) hqne]
       exact hok.occ q hqm
   obtain ⟨⟨F, hperm, hF, hFb⟩, hocc, hchain, hframe⟩ := hmid
-  refine ⟨⟨⟨?_, ?_, ?_, ?_, ?_⟩, ?_, by omega, Or.inl hHt, hord'⟩, hflat', hroot'⟩
+  refine ⟨⟨⟨?_, ?_, ?_, ?_, ?_, ?_⟩, ?_, by omega, Or.inl hHt, hord'⟩, hflat', hroot'⟩
   · refine ids_surgery (L := []) (R := []) (A := t.flat) (A' := t'.flat) (F := (t.nextId + 1) :: F) hok.ids
       (by simp) (by simp) ?_ ?_ ?_ (by omega)
     · rw [hflat']
@@ -243,7 +244,7 @@ theorem rootSplit_step {H : List Lk} {hole : Option Nat} {t : Tree K V} (hok : T
     rcases List.mem_cons.1 hq with rfl | hq
     · refine ⟨?_, ?_, ?_, ?_⟩
       · show 2 ≤ t.order
-        have := hok.order4; omega
+        exact hok.order2
       · show minOf t.order (t.nextId + 1) hole (t.nextId + 1) (t.depth + 1) ≤ 2
         unfold minOf
         simp
@@ -252,7 +253,8 @@ theorem rootSplit_step {H : List Lk} {hole : Option Nat} {t : Tree K V} (hok : T
     · exact hocc q hq
   · rw [chainOk_iff, hflat', chainView_cons_inner _ _ _ (Nat.succ_pos _)]
     exact hchain.chain ((chainOk_iff t).1 hok.chain)
-  · rw [hord']; exact hok.order4
+  · rw [hord']; exact hok.order2
+  · rw [hord']; exact hok.big
   · rw [hord']; exact hok.even
   · rw [hflat']
     exact frameEq_drop_left (keepOf_fresh H _ _ (by show t.nextId ≤ t.nextId + 1; omega)) hframe
